@@ -12,6 +12,23 @@ def norm_construct(text):
     return re.sub(r"\s+", " ", text.strip())[:200]
 
 
+_kc_cache = {}
+
+
+def key_construct(text):
+    if text not in _kc_cache:
+        from .model import alpha, KNOWN_NAMES
+        import re
+        if re.fullmatch(r"[A-Za-z_]\w*", text.strip()):
+            _kc_cache[text] = text.strip()          # a bare field / method name chosen by the rule, not a local
+        else:
+            try:
+                _kc_cache[text] = alpha(text, extra_keep=KNOWN_NAMES)
+            except SyntaxError:
+                _kc_cache[text] = text
+    return _kc_cache[text]
+
+
 class Finding:
     def __init__(self, rule, where, construct, reason, message, loc="", witness=None):
         self.rule, self.where, self.reason, self.message = rule, where, reason, message
@@ -21,7 +38,8 @@ class Finding:
 
     @property
     def key(self):
-        return "%s|%s|%s|%s" % (self.rule, self.where, self.construct, self.reason)
+        """rule | Class.method | construct with local/parameter names alpha-normalised | reason -- no line numbers, no local names"""
+        return "%s|%s|%s|%s" % (self.rule, self.where, key_construct(self.construct), self.reason)
 
     def as_dict(self):
         return {"key": self.key, "rule": self.rule, "where": self.where, "construct": self.construct,
